@@ -400,57 +400,77 @@ Fixpoint af_expdigits (fuel : nat) (b : list Z) (j exp : Z) : res (list Z) :=
 Definition reslice (b : list Z) (i : Z) : res (list Z) :=
   if (0 <=? i) && (i <=? len b) then Ok (firstz i b) else Panic.
 
+(* everything of AppendFloat after mant := int64(f): the layout of mant * 10^-prec *)
+Definition af_print (b spare : list Z) (neg : bool) (mant prec : Z) : res (list Z) :=
+  let mantLen := len_int mant in
+  let mantExp := mantLen - prec - 1 in
+  if mant =? 0 then Ok (b ++ [48])
+  else
+    let exp := if 0 <? mantExp then (if prec <? 0 then mantExp else 0)
+               else if mantExp <? -3 then mantExp else 0 in
+    let expLen := if 0 <? mantExp then 1 + len_int exp
+                  else if mantExp <? -3 then 1 + len_int exp else 0 in
+    let mantLen := if (0 <? mantExp) || (mantExp <? -3) then mantLen
+                   else if mantExp <? -1 then mantLen + (- mantExp - 1) else mantLen in
+    let i := len b in
+    let maxLen := 1 + mantLen + expLen in
+    let maxLen := if neg then maxLen + 1 else maxLen in
+    b1 <-- grow b spare maxLen ;;
+    bi <-- (if neg then b2 <-- store b1 i 45 ;; Ok (b2, i + 1) else Ok (b1, i)) ;;
+    let i := snd bi in
+    let first := i in
+    let last := i + mantLen in
+    let dot := last - prec - exp in
+    s <-- af_loop 20 (mkAf (fst bi) i last last dot exp true) mant ;;
+    s3 <-- (if af_dot s <? af_j s then
+              r <-- af_zeros (Z.to_nat (af_j s - af_dot s)) (af_b s) (af_j s) ;;
+              b' <-- store (fst r) (snd r) 46 ;;
+              Ok (mkAf b' (af_i s) (snd r) (af_last s) (af_dot s) (af_exp s) (af_zero s))
+            else if af_last s + 3 <? af_dot s then
+              Ok (mkAf (af_b s) (af_last s + 1) (af_j s) (af_last s) (af_dot s) (af_dot s - af_last s - 1) (af_zero s))
+            else if af_j s =? af_dot s then
+              b' <-- store (af_b s) (af_j s) 46 ;;
+              Ok (mkAf b' (af_i s) (af_j s) (af_last s) (af_dot s) (af_exp s) (af_zero s))
+            else Ok s) ;;
+    let exp := af_exp s3 in
+    let i := af_i s3 in
+    let b3 := af_b s3 in
+    if negb (exp =? 0) then
+      if exp =? 1 then
+        b4 <-- store b3 i 48 ;; reslice b4 (i + 1)
+      else if exp =? 2 then
+        twodigits <-- (if first + 3 <=? i then
+                         match peekz b3 (i - 2) with Some c => Ok (c =? 46) | None => Panic end
+                       else Ok false) ;;
+        if twodigits then
+          match peekz b3 (i - 1) with
+          | Some c => b4 <-- store b3 (i - 2) c ;; b5 <-- store b4 (i - 1) 48 ;; reslice b5 i
+          | None => Panic
+          end
+        else
+          b4 <-- store b3 i 48 ;; b5 <-- store b4 (i + 1) 48 ;; reslice b5 (i + 2)
+      else
+        b4 <-- store b3 i 101 ;;
+        let i := i + 1 in
+        be <-- (if exp <? 0 then b5 <-- store b4 i 45 ;; Ok (b5, i + 1, - exp) else Ok (b4, i, exp)) ;;
+        let i := snd (fst be) + len_int (snd be) in
+        b6 <-- af_expdigits 20 (fst (fst be)) i (snd be) ;;
+        reslice b6 i
+    else reslice b3 i.
+
+(* the scaled mantissa and the adjusted precision AppendFloat computes for f >= 0 *)
+Definition af_prec (f : f64) (prec : Z) : Z :=
+  let prec := if (prec <? 0) || (17 <? prec) then 17 else prec in
+  let exp10 := float64exp f in
+  let exp10 := if flt f (pow10 exp10) then exp10 - 1 else exp10 in
+  prec - exp10.
+Definition af_mant (f : f64) (prec : Z) : Z :=
+  let prec := af_prec f prec in
+  f_to_i64 (if 308 <? prec then fmul (fmul f (pow10 308)) (pow10 (prec - 308)) else fmul f (pow10 prec)).
+
 Definition append_float (b spare : list Z) (f : f64) (prec : Z) : res (list Z) :=
   if f_is_nan f || f_is_inf f then Ok b
   else
     let neg := flt f fzero in
     let f := if neg then fneg f else f in
-    let prec := if (prec <? 0) || (17 <? prec) then 17 else prec in
-    let prec := prec - float64exp f in
-    let f := if 308 <? prec then fmul (fmul f (pow10 308)) (pow10 (prec - 308)) else fmul f (pow10 prec) in
-    let mant := f_to_i64 f in
-    let mantLen := len_int mant in
-    let mantExp := mantLen - prec - 1 in
-    if mant =? 0 then Ok (b ++ [48])
-    else
-      let exp := if 0 <? mantExp then (if prec <? 0 then mantExp else 0)
-                 else if mantExp <? -3 then mantExp else 0 in
-      let expLen := if 0 <? mantExp then 1 + len_int exp
-                    else if mantExp <? -3 then 1 + len_int exp else 0 in
-      let mantLen := if (0 <? mantExp) || (mantExp <? -3) then mantLen
-                     else if mantExp <? -1 then mantLen + (- mantExp - 1) else mantLen in
-      let i := len b in
-      let maxLen := 1 + mantLen + expLen in
-      let maxLen := if neg then maxLen + 1 else maxLen in
-      b1 <-- grow b spare maxLen ;;
-      bi <-- (if neg then b2 <-- store b1 i 45 ;; Ok (b2, i + 1) else Ok (b1, i)) ;;
-      let i := snd bi in
-      let last := i + mantLen in
-      let dot := last - prec - exp in
-      s <-- af_loop 20 (mkAf (fst bi) i last last dot exp true) mant ;;
-      s3 <-- (if af_dot s <? af_j s then
-                r <-- af_zeros (Z.to_nat (af_j s - af_dot s)) (af_b s) (af_j s) ;;
-                b' <-- store (fst r) (snd r) 46 ;;
-                Ok (mkAf b' (af_i s) (snd r) (af_last s) (af_dot s) (af_exp s) (af_zero s))
-              else if af_last s + 3 <? af_dot s then
-                Ok (mkAf (af_b s) (af_last s + 1) (af_j s) (af_last s) (af_dot s) (af_dot s - af_last s - 1) (af_zero s))
-              else if af_j s =? af_dot s then
-                b' <-- store (af_b s) (af_j s) 46 ;;
-                Ok (mkAf b' (af_i s) (af_j s) (af_last s) (af_dot s) (af_exp s) (af_zero s))
-              else Ok s) ;;
-      let exp := af_exp s3 in
-      let i := af_i s3 in
-      let b3 := af_b s3 in
-      if negb (exp =? 0) then
-        if exp =? 1 then
-          b4 <-- store b3 i 48 ;; reslice b4 (i + 1)
-        else if exp =? 2 then
-          b4 <-- store b3 i 48 ;; b5 <-- store b4 (i + 1) 48 ;; reslice b5 (i + 2)
-        else
-          b4 <-- store b3 i 101 ;;
-          let i := i + 1 in
-          be <-- (if exp <? 0 then b5 <-- store b4 i 45 ;; Ok (b5, i + 1, - exp) else Ok (b4, i, exp)) ;;
-          let i := snd (fst be) + len_int (snd be) in
-          b6 <-- af_expdigits 20 (fst (fst be)) i (snd be) ;;
-          reslice b6 i
-      else reslice b3 i.
+    af_print b spare neg (af_mant f prec) (af_prec f prec).
